@@ -82,7 +82,8 @@ def main():
                 if getattr(mesh, "reversed", None):
                     opts["swapped_normals"] = list(mesh.reversed)
                 descr = {"mesh": mesh.describe(), "class": cls, "kind": kind, "degree": degree, "opts": S.opts_key(opts)}
-                with ctx.guard(cid, "space:%s%d" % (kind, degree), allow=S.ALLOWED_REJECTIONS):
+                rev = bool(getattr(mesh, "reversed", None))
+                with ctx.guard(cid, "space:%s%d%s" % (kind, degree, ":reversed_orientation_grid" if rev else ""), allow=S.ALLOWED_REJECTIONS, site=rev):
                     if kind in ("BC", "RBC", "DUAL") and mesh.ne > (60 if ctx.quick else 200):
                         continue
                     exp = S.expected_entities(topo, mesh.D, kind, degree, opts)
